@@ -103,6 +103,6 @@ def distribution(recs):
 
 
 MANIFEST = {
- "text": "The regenerated result and progress templates, evaluated symbolically by a small interpreter of the text/template subset they use, yield for every combination of their guards exactly the layout the property names: banner chosen by the verdict alone, each count line guarded by its own count and showing that count, its share of .Iterations and its rate, the started line showing .IterationsStarted (C19_result_layout, C19_progress_layout: kernel-checked over all guard combinations), percent is only evaluated under a positive count (no 0/0) and the structured group passes its counts through unchanged (C19_log_group). Tie: the real Render()/Log() on generated data and the real Result.Summary()/Progress() from recorded outcomes, every number re-extracted from the output and compared (percentages recomputed exactly).",
+ "text": "The regenerated result and progress templates, evaluated symbolically by a small interpreter of the text/template subset they use, yield for every combination of their guards exactly the layout the property names: banner chosen by the verdict alone, each count line guarded by its own count and showing that count, its share of .Iterations and its rate, the started line showing .IterationsStarted (C19_result_layout, C19_progress_layout: kernel-checked over all guard combinations), percent is only evaluated under a positive count (no 0/0) and the structured group passes its counts through unchanged (C19_log_group). Tie: the real Render()/Log() on generated data and the real Result.Summary()/Progress() from recorded outcomes, every number re-extracted from the output and compared (percentages recomputed exactly). Regenerated: Result.Summary and Result.Progress hand the views, field by field, the counts of the result's own snapshot, its own Error() and Failed() (result_Summary_refines, result_Progress_refines).",
  "note": "text/template, fmt and Duration.String are external; the layout theorems are about the regenerated template text under the interpreter of the subset used. Duration figures are not re-parsed.",
- "technique": "Lean 4 theorems by exhaustive symbolic evaluation of the regenerated templates (finite guard table) + field-by-field extraction check on the real renderer"}
+ "technique": "Lean 4 theorems by exhaustive symbolic evaluation of the regenerated templates (finite guard table) + field-by-field extraction check on the real renderer; refinement of the regenerated Result accessors (MiniGo)"}
